@@ -2949,3 +2949,23 @@ Q(name="e2_connection_new_idle_timeout", props=["C08"], func=r"connection/mod\.r
   functions=["Connection::new (Duration::from_millis inlined)"], post=cnw_post,
   bounds="every configuration value: the idle timeout a new connection starts with (in force until the peer's transport parameters arrive) is None when max_idle_timeout is unset OR zero, and exactly the configured number of milliseconds otherwise - a zero must never arm an immediate idle timer that the later negotiation (None) does not stop; every other field of the constructor is outside the claim",
   replay=("conn_new_idle_timeout_native", lambda m: [dict(ms=0), dict(ms=1), dict(ms=30000)]))
+
+
+# ------------------------------------------------------------------ C11 / C06: a read that is refused leaves the stream where it was
+def chn_post(c, p):
+    st = p.p.state
+    if p.p.outcome != "return":
+        return "true"
+    err = eq(c.ex.read_key(st, "_0#discr", I64).t, bv(1))
+    rm = p.called(r"RawTable.*::remove$|OccupiedEntry.*::remove$|remove_entry$")
+    if len(rm) > 1:
+        return "false"
+    # taking the stream's state out of the map is the point of no return: whoever does it hands the state on (Ok)
+    return not_(err) if rm else err
+
+
+Q(name="e2_chunks_new_keeps_stream_on_error", props=["C11", "C06"], func=r"streams/recv\.rs:\d+:1: \d+:20>::new\(_1: StreamId",
+  allowed_panics=r"unwrap_failed|called `Option::unwrap",
+  functions=["Chunks::new (HashMap entry / remove inlined from hashbrown)"], pre=lambda c: "true", post=chn_post,
+  bounds="every state of the receive map and of the stream, every verdict of Assembler::ensure_ordering: the stream's receive state is taken out of the map only on the path that returns Ok (it travels inside the Chunks and is put back or freed by finalize); every refusal - unknown stream, stopped stream, an ordered read after unordered ones - leaves the map as it was, so the stream can still be read, stopped, credited and eventually freed",
+  replay=("streams_illegal_ordered_read_native", lambda m: [dict(x=0)]))
